@@ -61,6 +61,11 @@ func init() {
 			{[]string{"TZ=YYY+11:30", "LANG=C"}, filepath.Join(root, "a"), name},
 			{[]string{"TZ=UTC"}, filepath.Join(root, "a", "b"), "../" + name},
 			{[]string{"TZ=Pacific/Kiritimati"}, root, "a/" + name},
+			{[]string{"TZ=UTC", "LC_ALL=POSIX"}, filepath.Join(root, "a"), name},
+			{[]string{"TZ=UTC", "LANG=de_DE.ISO-8859-1", "GOMAXPROCS=1"}, filepath.Join(root, "a"), name},
+			{[]string{"TZ=UTC", "LANG=en_US.UTF-8", "LC_CTYPE=cs_CZ.ISO-8859-2", "GOMAXPROCS=16"}, filepath.Join(root, "a"), name},
+			{[]string{"TZ=UTC", "LANG=ja_JP.eucJP", "TERM=dumb", "NO_COLOR=1", "COLUMNS=20", "LINES=5"}, filepath.Join(root, "a"), name},
+			{[]string{"TZ=UTC", "TERM=xterm-256color", "COLUMNS=300", "HOME=/nonexistent", "USER=nobody", "LC_MESSAGES=fr_FR.UTF-8", "LC_TIME=ar_EG.UTF-8", "LC_NUMERIC=de_DE.UTF-8"}, filepath.Join(root, "a"), name},
 		}
 		first := ""
 		for i, c := range cfgs {
@@ -127,6 +132,8 @@ func multiValued() []sample {
 		sample{"pgp", "pgp3", pgpArmoredMulti([]string{"Alice", "Bob", "Carol", "Dave"})},
 		sample{"jwt", "jwtq", []byte("eyJhbGciOiJIUzI1NiJ9.eyJleHAiOiIxNzAwMDAwMDAwIiwiaWF0IjoiMTcwMDAwMDAwMCIsIm5iZiI6IjAiLCJzdWIiOiJ4In0.c2ln")},
 		sample{"pgp", "pgpcase", pgpCaseTwins()},
+		sample{"pgp", "pgpintl", pgpArmoredMulti([]string{"Jiří Müller (日本) 🔑 <j@example.cz>", "İstanbul ıI", "Ελληνικά"})},
+		sample{"sshpub", "sshintl", []byte(sshKeyLines()[0] + " Jiří Müller (日本) 🔑 İı\n")},
 		sample{"pgp", "pgp1", pgpArmored(false)}, sample{"pgp", "pgppriv", pgpArmored(true)},
 		sample{"authkeys", "ak", []byte(strings.Join(sshKeyLines()[:3], "\n") + "\n")})
 	return out
@@ -140,7 +147,7 @@ func genC04(tier string, r *rng) {
 			name = "authorized_keys"
 		}
 		emit("repeat", hxs(name), hx(s.data))
-		if tier == "thorough" || i%4 == 0 || s.class == "pgp" || s.class == "jks" || s.class == "jceks" || s.class == "jwt" {
+		if tier == "thorough" || i%4 == 0 || s.class == "pgp" || s.class == "jks" || s.class == "jceks" || s.class == "jwt" || strings.HasSuffix(s.name, "intl") {
 			emit("envs", hxs(name), hx(s.data))
 		}
 	}
